@@ -286,7 +286,7 @@ def _admissible(spec):
 
 
 # ---------------------------------------------------------------------------
-HIER = ['P', 'U2', 'AB', 'SH', 'L', 'T1']
+HIER = ['P', 'U2', 'AB', 'SH', 'L', 'T1', 'DI']
 
 
 def enum_tagged(maxn):
